@@ -32,6 +32,14 @@ def class_modules():
                  C('VerticalFlip'), C('HorizontalFlip'), C('SliceFlip'), C('Flip'), C('Transpose',
                                                                                   methods=['apply', 'apply_to_mask', 'apply_to_bbox', 'apply_to_keypoint']),
                  C('PadIfNeeded', self_attrs={'border_mode': 'str', 'value': 'Q', 'mask_value': 'Q'}),
+                 C('PadIfNeeded', methods=[], coq_prefix='PadIfNeededS',
+                   self_attrs={'min_height': 'opt:Z', 'min_width': 'opt:Z', 'min_depth': 'opt:Z',
+                               'pad_height_divisor': 'opt:Z', 'pad_width_divisor': 'opt:Z', 'pad_depth_divisor': 'opt:Z',
+                               'position': 'str'},
+                   samplers={'update_params': [('tgt_rows', 'Z'), ('tgt_cols', 'Z'), ('tgt_slices', 'Z')],
+                             '__update_position_params': [('h_top', 'Z'), ('h_bottom', 'Z'), ('w_left', 'Z'),
+                                                          ('w_right', 'Z'), ('d_front', 'Z'), ('d_back', 'Z')]}),
+                 C('Flip', methods=[], coq_prefix='FlipS', samplers={'get_params': []}),
              ]),
         dict(file='dicaugment/augmentations/geometric/rotate.py', coq_module='Gen_cls_rotate', requires=GEOM_REQ,
              classes=[C('RandomRotate90')]),
@@ -44,6 +52,16 @@ def class_modules():
                  C('RandomCropFromBorders'),
                  C('RandomCropNearBBox'),
                  C('BBoxSafeRandomCrop', methods=['apply', 'apply_to_bbox']),
+                 C('RandomCrop', methods=[], coq_prefix='RandomCropS', samplers={'get_params': []}),
+                 C('RandomCropFromBorders', methods=[], coq_prefix='RandomCropFromBordersS',
+                   self_attrs={'crop_left': 'Q', 'crop_right': 'Q', 'crop_top': 'Q', 'crop_bottom': 'Q',
+                               'crop_close': 'Q', 'crop_far': 'Q'},
+                   samplers={'get_params_dependent_on_targets': [('tgt_image', 'arr')]}),
+                 C('BBoxSafeRandomCrop', methods=[], coq_prefix='BBoxSafeRandomCropS', self_attrs={'erosion_rate': 'Q'},
+                   samplers={'get_params_dependent_on_targets': [('tgt_image', 'arr'), ('tgt_bboxes', 'boxes')]}),
+                 C('RandomCropNearBBox', methods=[], coq_prefix='RandomCropNearBBoxS',
+                   self_attrs={'max_part_shift': 'tuple:Q,Q,Q'},
+                   samplers={'get_params_dependent_on_targets': [('tgt_cropping_bbox_key', 'c6')]}),
              ]),
         dict(file='dicaugment/augmentations/dropout/coarse_dropout.py', coq_module='Gen_cls_coarse',
              requires=GEOM_REQ, classes=[C('CoarseDropout', methods=['apply', 'apply_to_mask'])]),
